@@ -277,6 +277,7 @@ package opset13
 //@   before Reshape#2 assert split_product: nelems(inputShape[:axis]) * nelems(inputShape[axis:]) == nelems(inputShape)
 //@   before Reshape assert clone_count: blen(out) == nelems(inputShape)
 //@   ensures axis_out_of_range_refused: self.axis < 0 - rank(inputs[0]) || self.axis > rank(inputs[0]) ==> err != nil
+//@   ensures valid_axis_accepted: 0 - rank(inputs[0]) <= self.axis && self.axis <= rank(inputs[0]) ==> err == nil
 //@   ensures flattened: err == nil ==> len(result) == 1 && result[0] != nil && fresh(result[0]) && rank(result[0]) == 2 &&
 //@          contents(result[0]) == contents(inputs[0]) && dtype(result[0]) == dtype(inputs[0])
 //@   ensures split_at_axis: err == nil && 0 <= self.axis && self.axis <= rank(inputs[0]) ==>
